@@ -378,7 +378,7 @@ func (w *world) runWith(r *hx.Run, c caseT, env []byte, priorEnv []byte) int {
 		if c.Plugin == 2 {
 			key += ":with-honest-identity-plugin-and-revocation-skipped"
 		}
-		r.Violation(key, fmt.Sprintf("%s | leaf=%s (%v) identities=%q prior=%d", what, c.Subject.Label, c.Subject.RDNs, ids, c.Prior), c)
+		r.Violation(key, fmt.Sprintf("%s | leaf=%s (%q) identities=%q prior=%d", what, c.Subject.Label, c.Subject.RDNs, ids, c.Prior), c)
 	}
 	r.Eval(1)
 	leafAttrs := c.Subject.attrs()
